@@ -632,6 +632,18 @@ func (m *Machine) hashRun(ts []*Term, i, min int) ([]*Term, int, bool) {
 	return nil, 0, false
 }
 
+// hashDepthLimit (//zz:opt hashdepth=N, default 6): how deep bytesEq follows hash values nested in
+// preimages (Merkle nodes). Below the limit the preimages are compared bytewise without further facts,
+// so two different trees deeper than the limit can look equal to the solver.
+func (m *Machine) hashDepthLimit() int {
+	if s, ok := m.cfg.Opts["hashdepth"]; ok {
+		if n, err := strconv.Atoi(s); err == nil && n > 0 {
+			return n
+		}
+	}
+	return 6
+}
+
 // bytesEq is bit-wise equality of two equal-length byte vectors. Where both sides carry a hash value
 // at the same position, the collision-freeness of the hash model (DESIGN §3) is asserted as a fact
 // for exactly that pair: equal hash bytes imply equal preimages (and when the preimages are
@@ -659,7 +671,7 @@ func (m *Machine) bytesEq(a, b []*Term) *Term {
 						pe = tt.F
 					} else if len(pa) == 0 {
 						pe = tt.T
-					} else if m.path.hashDepth < 6 {
+					} else if m.path.hashDepth < m.hashDepthLimit() {
 						// preimages may embed hash values themselves (Merkle nodes): recurse so that
 						// collision-freeness is applied at every level
 						m.path.hashDepth++
